@@ -172,7 +172,7 @@ Definition code (o : op) : list nitem :=
   | default_cipher_suites => [NOnce O_suites; rd L_suites]
   (* LRU client session cache: scenarios lru_cache, hs_* *)
   | lru_put | lru_get => locked Excl M_lru [rd L_lru; wr L_lru]
-  (* one Conn: scenarios conn_rwc_gm, conn_rwc_tls *)
+  (* one Conn: scenarios conn_rwc_gm, conn_rwc_tls; conn_alert_gm, conn_alert_tls (alerts sent from the read path during Writes) *)
   | conn_handshake =>
       conn_Handshake ++ [rd L_conn_const]
   | conn_read =>
